@@ -27,6 +27,7 @@ pub mod c05;
 pub mod c06;
 pub mod c07;
 pub mod c08;
+pub mod c12;
 pub mod c13;
 pub mod cfg;
 pub mod fault;
@@ -39,7 +40,7 @@ pub mod world;
 use scenario::MarketHistory;
 use simcore::{CheckSpec, Part};
 
-pub const PROPERTIES: &[&str] = &["C02", "C03", "C04", "C05", "C06", "C07", "C08", "C13"];
+pub const PROPERTIES: &[&str] = &["C02", "C03", "C04", "C05", "C06", "C07", "C08", "C12", "C13"];
 
 fn common_assumptions() -> Vec<String> {
     vec![
@@ -92,6 +93,10 @@ pub fn registry(property: &str) -> Option<CheckSpec> {
         "C13" => Some(spec("C13", "exploration", 400_000, 8_000_000, vec![
             "The factor at which a position last settled is recorded by the harness from the market state at the end of each successful increase / decrease, not read from the position.".into(),
             "total_pending_borrowing_fees is evaluated by the harness after every step (also after clock advances and price changes), both borrowing models (exponent and kink).".into(),
+        ])),
+        "C12" => Some(spec("C12", "exploration", 400_000, 8_000_000, vec![
+            "The rate an update used is not part of its report; the harness obtains it from the public next_funding_factor_per_second on a fork of the pre-state with the same duration and open interest.".into(),
+            "The minimum is demanded literally (whenever both sides have open interest); the key separates adaptive from non-adaptive configurations.".into(),
         ])),
         _ => None,
     }
